@@ -1,7 +1,7 @@
 #!/bin/bash
 # Runs every registered check (quick by default) on the current /repo tree and prints one status line each.
 tier=${1:-quick}
-cd /verif
+cd "$(cd "$(dirname "$0")" && pwd)"
 for p in $(python3 -c "import json;print(' '.join(c['property_id'] for c in json.load(open('MANIFEST.json'))['checks']))"); do
   s=$(date +%s); out=$(./check $p $tier 2>&1); rc=$?; e=$(( $(date +%s) - s ))
   echo "$p rc=$rc ${e}s $(echo "$out" | grep -E '^(OK|VIOLATION|INCONCLUSIVE)' | head -2 | tr '\n' ' ' | cut -c1-160)"
